@@ -166,9 +166,11 @@ Step(e) ==
         /\ es' = InitState(CfgOf(e)) /\ pend' = <<>> /\ skip' = FALSE
         /\ out' = [out EXCEPT !.runs = @ + 1]
     ELSE IF skip THEN
-        \* the run is no longer replayed, but the states the code passes through are still judged (one report per run)
-        IF e.ev = "St" /\ (\A i \in 1..Len(out.inv) : out.inv[i].run # e.run) /\ BrokenObserved(e) # {}
-        THEN /\ out' = [out EXCEPT !.inv = Append(@, [run |-> e.run, seq |-> e.seq, broken |-> BrokenObserved(e)])] /\ UNCHANGED <<es, pend, skip>>
+        \* the run is no longer replayed, but the states the code passes through are still judged (each invariant reported once per run)
+        IF e.ev = "St" THEN
+            LET fresh == BrokenObserved(e) \ UNION {out.inv[i].broken : i \in {j \in 1..Len(out.inv) : out.inv[j].run = e.run}} IN
+            IF fresh # {} THEN /\ out' = [out EXCEPT !.inv = Append(@, [run |-> e.run, seq |-> e.seq, broken |-> fresh])] /\ UNCHANGED <<es, pend, skip>>
+            ELSE UNCHANGED <<es, pend, skip, out>>
         ELSE UNCHANGED <<es, pend, skip, out>>
     ELSE IF IsCall(e) THEN
         IF pend # <<>> THEN
